@@ -1419,6 +1419,9 @@ Require Verif.Tie.NugetRange.
 Require Verif.Tie.PypiRange.
 Require Verif.Tie.Loops.CargoRange.
 Require Verif.Tie.Loops.ConanRange.
+Require Verif.Tie.Loops.HexRange.
+Require Verif.Tie.Loops.NugetRange.
+Require Verif.Tie.Loops.PypiRange.
 Definition C05_tie_cargo_caret := Verif.Tie.CargoRange.tie_cargo_caret.
 Print Assumptions C05_tie_cargo_caret.
 Definition C05_tie_cargo_tilde := Verif.Tie.CargoRange.tie_cargo_tilde.
@@ -1485,4 +1488,20 @@ Definition C05_tie_caretMatch_total_model := Verif.Tie.Loops.ConanRange.caretMat
 Print Assumptions C05_tie_caretMatch_total_model.
 Definition C05_tie_conan_contains_closed := Verif.Tie.Loops.ConanRange.tie_conan_contains_closed.
 Print Assumptions C05_tie_conan_contains_closed.
+Definition C05_tie_hex_matches_closed := Verif.Tie.Loops.HexRange.tie_hex_matches_closed.
+Print Assumptions C05_tie_hex_matches_closed.
+Definition C05_tie_hex_contains_closed := Verif.Tie.Loops.HexRange.tie_hex_contains_closed.
+Print Assumptions C05_tie_hex_contains_closed.
+Definition C05_tie_hex_contains_closed_model_ident := Verif.Tie.Loops.HexRange.tie_hex_contains_closed_model_ident.
+Print Assumptions C05_tie_hex_contains_closed_model_ident.
+Definition C05_tie_nuget_matches_closed := Verif.Tie.Loops.NugetRange.tie_nuget_matches_closed.
+Print Assumptions C05_tie_nuget_matches_closed.
+Definition C05_tie_nuget_contains_closed := Verif.Tie.Loops.NugetRange.tie_nuget_contains_closed.
+Print Assumptions C05_tie_nuget_contains_closed.
+Definition C05_tie_nuget_contains_closed_model_num := Verif.Tie.Loops.NugetRange.tie_nuget_contains_closed_model_num.
+Print Assumptions C05_tie_nuget_contains_closed_model_num.
+Definition C05_tie_pypi_matches_closed := Verif.Tie.Loops.PypiRange.tie_pypi_matches_closed.
+Print Assumptions C05_tie_pypi_matches_closed.
+Definition C05_tie_pypi_contains_closed := Verif.Tie.Loops.PypiRange.tie_pypi_contains_closed.
+Print Assumptions C05_tie_pypi_contains_closed.
 (* ====== ties to the source: END ====== *)
